@@ -57,7 +57,7 @@ func (vc *VC) scriptMode2(o *Oblig, prelude string, axioms []string, wantModel b
 	var kept []string
 	emit := func(a string) {
 		if stripped {
-			if d := asUnaryDef(a); d != nil {
+			if d := asUnaryDefMode(a, o.Kind == "lemma"); d != nil {
 				defs = append(defs, d)
 			}
 			a = stripAssumption(a)
@@ -112,7 +112,7 @@ func (vc *VC) scriptMode2(o *Oblig, prelude string, axioms []string, wantModel b
 	if stripped && len(defs) > 0 {
 		// the quantifier-free weakening keeps the ground instances of unary definitions (opaque spec predicates such as
 		// isIdName) at the terms that occur: cvc5 then decides string goals that need the definition
-		for _, inst := range groundInstances(defs, append(append([]string(nil), kept...), stripAssumption("(not "+o.Goal+")")), 200) {
+		for _, inst := range groundInstancesMode(defs, append(append([]string(nil), kept...), stripAssumption("(not "+o.Goal+")")), 300, o.Kind == "lemma") {
 			if inst != "true" {
 				if sliced {
 					kept = append(kept, inst)
